@@ -325,6 +325,10 @@ def gen_lambda(r, size):
         a, b, c = [r.choice(["o1", "o2", "o5", "2", "7"] + params) for _ in range(3)]
         chain = "%s %s %s %s %s" % (a, r.choice(["op1", "op2", "+", "*"]), b, r.choice(["op1", "op2", "-"]), c)
         body = "(chk := (%s); print(chk); %s)" % (chain, body)
+    # unary minus on a literal where `-` is a parameter shadowing the builtin (constant folding of
+    # negative literals must respect the local binding)
+    if r.random() < 0.15:
+        body = "(chm := (\\-, zz -> (-3) + zz)(\\b -> b * 10, %s); print(chm); %s)" % (r.choice(["1", "o1"] + params), body)
     plant = None
     if static is None and r.random() < 0.12:
         # o8/o9 are outer variables the generator never mentions, so they cannot be shadowed locally
